@@ -157,6 +157,9 @@ write_prototype_for(ostream &out, InterfaceMaker::Function *func) {
 
     if (output_function_names) {
       out << "EXPORT_FUNC ";
+    } else {
+      // The definition is static in this case; the prototype has to agree.
+      out << "static ";
     }
     write_function_header(out, func, remap, false);
     out << ";\n";
